@@ -11,8 +11,16 @@ def gen(rng):
         dims = {"width": rng.choice([1, 2, 3, 5, 50, 1000]), "depth": rng.choice([1, 2, 3, 5, 8])}
     keys = ["k%d" % i for i in range(rng.randint(1, 10))]
     ops = []
+    # a quarter of the histories use large amounts: the claim covers every total below 2^31 - 1
+    amounts = [1, 1, 2, 3, 10] if rng.random() < 0.75 else [1, 7, 10**6, 9 * 10**7, 3 * 10**8, 2**27, 2**28 + 1, 2**30 - 5]
+    total = 0
     for _ in range(rng.randint(1, 40)):
-        ops.append((rng.choice(["add", "add", "add", "rem"]), rng.choice(keys), rng.choice([1, 1, 2, 3, 10])))
+        kind, n = rng.choice(["add", "add", "add", "rem"]), rng.choice(amounts)
+        if kind == "add":
+            if total + n > 2**31 - 2:
+                continue
+            total += n
+        ops.append((kind, rng.choice(keys), n))
     return {"dims": dims, "strat": rng.choice(["fnv", "md5", "custom", "dint:fnvseed"]), "keys": keys, "ops": ops}
 
 
